@@ -235,4 +235,52 @@ def docOrderF (d lvl : Nat) : List Tree → List (Nat × Kind)
   | t :: ts => docOrder d lvl t ++ docOrderF d lvl ts
 end
 
+/-! ## identity-constraint tables of the two phases of lazy validation (schemas.py:1334-1401)
+
+  Phase 1 (the chunks, `iter_depth(mode=4)`): the counters of the constraints declared above the lazy depth live in
+  `identities`; every selected node inside a chunk increases them.  Phase 2 (the pruned root, `context.identities = {}`):
+  the selected nodes above the lazy depth increase fresh counters.  Then (1392-1399) the phase-2 counters are merged:
+  `identities[identity].counter.update(counter.counter)` when phase 1 has a counter for the constraint, else the
+  phase-2 counter is taken.  Values are abstract ids of field tuples. -/
+
+abbrev Ctr := List (Nat × Nat)        -- collections.Counter: (field tuple, count) in insertion order
+
+def Ctr.get : Ctr → Nat → Nat
+  | [], _ => 0
+  | (k, n) :: c, v => if k == v then n else Ctr.get c v
+
+/-- `self[v] += n` -/
+def Ctr.add : Ctr → Nat → Nat → Ctr
+  | [], v, n => [(v, n)]
+  | (k, m) :: c, v, n => if k == v then (k, m + n) :: c else (k, m) :: Ctr.add c v n
+
+/-- `IdentityCounter.increase` (identities.py:385-389) for the selected nodes of one phase in processing order:
+    the counter, and the values for which "duplicated value" is raised (the count becomes 2) -/
+def collectFrom (s : Ctr × List Nat) (vals : List Nat) : Ctr × List Nat :=
+  vals.foldl (fun s v => let c := s.1.add v 1; (c, if c.get v == 2 then s.2 ++ [v] else s.2)) s
+
+def collect (vals : List Nat) : Ctr × List Nat := collectFrom ([], []) vals
+
+/-- `Counter.update(other)` -/
+def Ctr.update (c o : Ctr) : Ctr := o.foldl (fun c p => c.add p.1 p.2) c
+
+/-- the merge of schemas.py:1392-1399; `phase1 = none`: no element of the lazy depth initialised the counter -/
+def mergeTables (phase1 : Option Ctr) (phase2 : Ctr) : Ctr :=
+  match phase1 with
+  | some c => c.update phase2
+  | none => phase2
+
+/-- a "first wins" merge (`identities.setdefault(identity, counter)`): NOT the code; the seeded regression C06-3 -/
+def mergeFirstWins (phase1 : Option Ctr) (phase2 : Ctr) : Ctr :=
+  match phase1 with
+  | some c => c
+  | none => phase2
+
+/-- selected nodes of a constraint in document order: (validated in the root pass?, value) -/
+def phaseVals (inRoot : Bool) (sel : List (Bool × Nat)) : List Nat :=
+  (sel.filter fun p => p.1 == inRoot).map Prod.snd
+
+/-- keyref values without a key: `KeyrefCounter.iter_errors` -/
+def dangling (keys refs : Ctr) : List Nat := (refs.filter fun p => keys.get p.1 == 0).map Prod.fst
+
 end XsVerif.Lazy
